@@ -150,6 +150,31 @@ pub fn run(env: &Env) -> Rec {
         }
     });
     rec.merge(r4);
+    let n_long = env.n(10_000, 400_000);
+    let per = 200usize;
+    let r5 = par(n_long.div_ceil(per), |c, rec| {
+        let mut rng = Rng::stream(env.seed, 0x08_C000 + c as u64);
+        super::hostile::drive(
+            &mut rng,
+            per,
+            65536,
+            |rng| {
+                let j = rng.below(30);
+                let s = match j % 3 {
+                    0 => super::c04::username_input(env, rng, j / 3),
+                    1 => super::c05::freeform_input(env, rng, j / 3),
+                    _ => super::c06::nickname_input(env, rng, j / 3),
+                };
+                s.chars().take(6).collect()
+            },
+            |s| {
+                for p in ALL_PROF {
+                    check(env, p, s, rec);
+                }
+            },
+        );
+    });
+    rec.merge(r5);
     let _ = gen::ALPHA9;
     rec
 }
